@@ -142,6 +142,9 @@ func main() {
 	for i := 0; i < c.Pick(4, 32); i++ {
 		units = append(units, unit{"fuzz", i})
 	}
+	for i := 0; i < c.Pick(4, 32); i++ {
+		units = append(units, unit{"reuse", i})
+	}
 	scratch := c.Scratch()
 	timeout := time.Duration(c.Pick(600, 3600)) * time.Second
 	var mu sync.Mutex
@@ -250,6 +253,8 @@ func childMain(args []string) {
 		runFlatStream(c, r, idx)
 	case "fuzz":
 		runFuzz(c, r, idx)
+	case "reuse":
+		runReuse(c, r, idx)
 	default:
 		fmt.Println("unknown phase", args[0])
 		os.Exit(3)
